@@ -11,6 +11,9 @@ import EaselModel.Stats.MinCounter
 import EaselModel.Stats.MinTrace
 import EaselModel.Stats.MinDescent
 import EaselModel.Stats.WeibullReal
+import EaselModel.Stats.TevdReal
+import EaselModel.Stats.HistExpectReal
+import EaselModel.Stats.HistPlotRat
 /-! # C11 — property theorems (statements + glue only; lemmas live in `EaselModel/Stats/*`)
 
 Histogram half. `Hist` is the line-by-line model of `esl_histogram.c` (`EaselModel/Stats/Histogram.lean`), run bit-for-bit
@@ -143,6 +146,65 @@ example : ∃ h : Hist ℚ, Hist.create (0 : ℚ) 10 1 = .val (some h) := by
   unfold Hist.create
   simp only [hq, hfin, toInt_intCast]
   exact ⟨_, rfl⟩
+
+/-! ### round 4: expected counts, goodness of fit, plot tables, rounding declaration (model `HistExpect.lean`, compared with the C code on every run) -/
+
+/-- `esl_histogram_SetExpect`, every cdf and numeric class: fills exactly `expect[0..nb-1]`; `emin` stays, or (from the sentinel `-1`) becomes
+    a bin in `0..nb-1`; the histogram is finished and nothing else changes. -/
+theorem set_expect_fills_all_bins {α : Type} [Num α] (h : Hist α) (e : Expect α) (cdf : α → α) (hnb : 0 ≤ h.nb) :
+    ∃ ex, (h.setExpect e cdf).2.expect = some ex ∧ (ex.size : Int) = h.nb ∧
+      ((h.setExpect e cdf).2.emin = e.emin ∨ (e.emin = -1 ∧ 0 ≤ (h.setExpect e cdf).2.emin ∧ (h.setExpect e cdf).2.emin < h.nb)) ∧
+      (h.setExpect e cdf).1 = { h with isDone := true } :=
+  setExpect_spec h e cdf hnb
+
+/-- **`esl_histogram_SetExpectedTail` never leaves `emin` outside `0..nb`** (the defect repaired in 7d2bcba: a `base_val` outside the binned
+    range made `esl_vec_DSet(expect, emin, 0.)` and the fill loop write outside `expect[]`), every `base_val` / mass / cdf / numeric class:
+    eslERANGE and nothing changed, or eslOK with `0 ≤ emin ≤ nb`, `expect[]` exactly `nb` long, zero below `emin`, `is_tailfit` and `is_done` set. -/
+theorem expected_tail_emin_in_range {α : Type} [Num α] (h : Hist α) (e : Expect α) (baseVal pmass : α) (cdf : α → α) (hnb : 0 ≤ h.nb) :
+    let r := h.setExpectedTail e baseVal pmass cdf
+    (r.1 = .erange ∧ r.2.1 = h ∧ r.2.2 = e) ∨
+    (r.1 = .ok ∧ 0 ≤ r.2.2.emin ∧ r.2.2.emin ≤ h.nb ∧ r.2.2.isTailfit = true ∧ r.2.1 = { h with isDone := true } ∧
+      ∃ ex, r.2.2.expect = some ex ∧ (ex.size : Int) = h.nb ∧ ∀ i : Nat, (i : Int) < r.2.2.emin → ex[i]? = some Num.zero) :=
+  setExpectedTail_spec h e baseVal pmass cdf hnb
+
+/-- **`esl_histogram_Goodness` is memory-safe.** Every numeric class: on a well-formed histogram with `cmin ≥ 0` and `expect[]` as long as
+    `obs[]`, the only way to the model's `.fault` (read outside `obs[]`/`expect[]`, write outside the `2·nb+1` re-bins, division by zero in
+    `minc`) is the bin-number formula `2·(int) pow(nobs, 0.4) ≤ 0` for some `nobs ≥ 1`; in exact arithmetic that cannot happen. -/
+theorem goodness_never_faults :
+    (∀ {α : Type} [Num α] (h : Hist α), h.WF → IdxOK h → 0 ≤ h.cmin → ∀ (e : Expect α), (∀ ex, e.expect = some ex → (ex.size : Int) = h.nb) →
+      ∀ nfitted : Int, h.goodness e nfitted = .fault → ∃ nobs : Nat, 0 < nobs ∧ 2 * Num.toInt (Num.pow (Num.ofInt (nobs : Int)) (0.4 : α)) ≤ 0) ∧
+    (∀ (h : Hist ℝ), h.WF → IdxOK h → 0 ≤ h.cmin → ∀ (e : Expect ℝ), (∀ ex, e.expect = some ex → (ex.size : Int) = h.nb) →
+      ∀ nfitted : Int, h.goodness e nfitted ≠ .fault) :=
+  ⟨fun h hwf hidx hc e hex nf hf => goodness_fault_only_from_pow h hwf hidx hc e hex nf hf,
+   fun h hwf hidx hc e hex nf => goodness_no_fault_real h hwf hidx hc e hex nf⟩
+
+/-- **`esl_histogram_Goodness` accounts for every count in the range it evaluates** (every numeric class): the observed counts of its re-bins
+    add up to `Σ obs[bbase..imax]`, `bbase = max(cmin, emin if is_tailfit)`; eslOK ⇒ `*ret_nbins` is the number of re-bins and at least one
+    degree of freedom is left (`nbins - nfitted - 1 > 0`). -/
+theorem goodness_accounts_for_its_counts {α : Type} [Num α] (h : Hist α) (e : Expect α) (nfitted : Int) (g : Goodness α) (bins : List (Nat × α))
+    (hg : h.goodness e nfitted = .val (g, bins)) (hne : bins ≠ []) :
+    goodnessCount h.obs (h.imax + 1 - goodnessBase h e).toNat (goodnessBase h e) 0 = .val (binsObs bins) ∧
+    (g.st = .ok → g.nbins = bins.length ∧ 0 < g.nbins - nfitted - 1) :=
+  goodness_accounts h e nfitted g bins hg hne
+
+/-- **`esl_histogram_Plot` accounts for the data** (ℚ, any history of accepted values `vs`): no read outside `obs[]`; one row per bin
+    `imin..imax`, each with the number of accepted values in that bin's interval; the printed counts add up to `n`. -/
+theorem plot_accounts_for_data (h : Hist ℚ) (vs : List ℚ) (acc : Accounts h vs) :
+    ∃ rows, h.plotObserved = .val rows ∧ rows.length = (h.imax + 1 - h.imin).toNat ∧ (rows.map (fun r => r.2)).sum = vs.length ∧
+      ∀ r ∈ rows, h.imin ≤ r.1 ∧ r.1 ≤ h.imax ∧ r.2 = vs.countP (fun x => decide (inBin h.bmin h.w r.1 x)) :=
+  plotObserved_accounts h vs acc
+
+/-- **`esl_histogram_PlotSurvival` accounts for the data**, the empty histogram included (e843eeb): no read outside `obs[]`; nothing printed
+    for an empty histogram; the last cumulative count printed is `n`. -/
+theorem plot_survival_accounts_for_data (h : Hist ℚ) (vs : List ℚ) (acc : Accounts h vs) :
+    ∃ first rows, h.plotSurvival = .val (first, rows) ∧ (vs = [] → first = false ∧ rows = []) ∧
+      (first = true → 1 < vs.countP (fun x => decide (inBin h.bmin h.w h.imax x))) ∧ ∀ l ∈ rows.getLast?, l.2 = vs.length :=
+  plotSurvival_accounts h vs acc
+
+/-- `esl_histogram_DeclareRounding` changes nothing but the flag -/
+theorem declare_rounding_keeps_the_data (h : Hist ℚ) (vs : List ℚ) (acc : Accounts h vs) :
+    Accounts h.declareRounding vs ∧ h.declareRounding.obs = h.obs ∧ h.declareRounding.isRounded = true :=
+  declareRounding_accounts h vs acc
 
 /-! ## Fits (the same model definitions read over ℝ)
 
@@ -511,6 +573,23 @@ theorem gamma_rate_is_maximiser (xbar logxbar lg tau lam : ℝ) (hx : 0 < xbar) 
       (llGam1 xbar logxbar lg lam tau = llGam1 xbar logxbar lg (tau / xbar) tau → lam = tau / xbar)) ∧
     gamNll xbar logxbar tau = some (-(llGam1 xbar logxbar (logGamma tau) (tau / xbar) tau)) :=
   ⟨gamma_rate_max xbar logxbar lg tau lam hx ht hl, gamNll_is_profile xbar logxbar tau hx ht⟩
+
+/-- **`tevd_grad` IS the gradient of `tevd_func`** (`esl_gumbel_FitTruncated` — the one fit that gives the optimiser an analytic gradient). ℝ, any data,
+    in the regime where neither routine takes a numerical shortcut (`λ(φ-μ) ≤ 50`; `|exp(-y)| ≥ 5e-9` and `|exp(-exp(-y))| ≥ 5e-9` in
+    `esl_gumbel_surv/logsurv`): the objective is the truncated-Gumbel negative log-likelihood `tevdNll` in `(μ, w = log λ)`, and the two numbers
+    `tevd_grad` returns are its partial derivatives. (Inside the shortcut branches the code uses asymptotic forms: not claimed.) -/
+theorem truncated_gumbel_gradient_is_derivative (xs : Array ℝ) (phi mu w : ℝ)
+    (h0 : ¬ (50 : ℝ) < Real.exp w * (phi - mu))
+    (h1 : ¬ |-(Real.exp (-(Real.exp w * (phi - mu))))| < (5e-9 : ℝ))
+    (h2 : ¬ |Real.exp (-(Real.exp (-(Real.exp w * (phi - mu)))))| < (5e-9 : ℝ)) :
+    tevdFunc xs phi #[mu, w] = tevdNll xs.toList phi mu w ∧
+    ∃ gm gw, tevdGrad xs phi #[mu, w] = #[gm, gw] ∧
+      HasDerivAt (fun m => tevdNll xs.toList phi m w) gm mu ∧ HasDerivAt (fun v => tevdNll xs.toList phi mu v) gw w :=
+  ⟨tevdFunc_eq xs phi mu w h1 h2, _, _, tevdGrad_eq xs phi mu w h0 h1, tevdNll_hasDerivAt_mu xs.toList phi mu w, tevdNll_hasDerivAt_w xs.toList phi mu w⟩
+
+/-- non-vacuity: `φ = μ = 0`, `λ = 1` lies in that regime -/
+example : ¬ (50 : ℝ) < Real.exp 0 * ((0 : ℝ) - 0) ∧ ¬ |-(Real.exp (-(Real.exp 0 * ((0 : ℝ) - 0))))| < (5e-9 : ℝ) ∧
+    ¬ |Real.exp (-(Real.exp (-(Real.exp 0 * ((0 : ℝ) - 0)))))| < (5e-9 : ℝ) := tevd_regime_example
 
 /-- over ℝ, `esl_vec_DMin` is the smallest observation (non-empty data) -/
 theorem cg_fit_location_is_minimum (xs : Array ℝ) (hn : 0 < xs.size) : vmin xs ∈ xs.toList ∧ ∀ x ∈ xs.toList, vmin xs ≤ x := by
